@@ -129,8 +129,8 @@ def truncateDatabase (s : Eng) (size : Nat) : M Eng := do
 /-- `invalidateJournal(mode)`; modes: 0 DELETE, 1 TRUNCATE, 2 PERSIST -/
 def invalidateJournal (s : Eng) (mode : Nat) : M Eng := do
   let s ← (match mode with
-    | 0 => if s.journal.isNone then fail s .err else pure { s with journal := none }
-    | 1 => if s.journal.isNone then fail s .err else pure { s with journal := some ByteArray.empty }
+    | 0 => if s.journal.isNone then fail s .enoent else pure { s with journal := none }
+    | 1 => if s.journal.isNone then fail s .enoent else pure { s with journal := some ByteArray.empty }
     | _ => match s.journal with
       | none => pure s
       | some j => pure { s with journal := some (writeAt j 0 (zeros 28)) })
@@ -209,7 +209,7 @@ def commitJournalValid (s : Eng) (mode : Nat) : M Eng := do
 def commitJournal (s : Eng) (mode : Nat) : M Eng := do
   ensure s (¬ (!s.writeable)) .readonly
   -- isJournalHeaderValid
-  let j ← (match s.journal with | none => fail s .err | some j => pure j)
+  let j ← (match s.journal with | none => fail s .enoent | some j => pure j)
   ensure s (¬ (j.size < 8)) .err
   if j.extract 0 8 != journalMagic then return ← invalidateJournal s mode
   if s.pageSize = 0 then return ← invalidateJournal s mode
